@@ -7,6 +7,7 @@ import (
 
 	"github.com/refraction-networking/uquic/internal/protocol"
 	"github.com/refraction-networking/uquic/internal/utils"
+	"github.com/refraction-networking/uquic/internal/verifhook"
 	"github.com/refraction-networking/uquic/qlogwriter"
 	tls "github.com/refraction-networking/utls"
 )
@@ -204,6 +205,7 @@ func (t *UTransport) doDial(
 		earlyConnChan = conn.earlyConnReady()
 	}
 
+	verifhook.Point("utransport.doDial.beforeSelect")
 	select {
 	case <-ctx.Done():
 		conn.destroy(nil)
